@@ -114,10 +114,15 @@ func solo(call Call) cached {
 // judge turns an outcome into the result of the oracle. batch tells that the outcome comes from a
 // worker shared with other calls, so anything suspicious is confirmed alone first.
 func judge(c Case, v cached, batch bool, res *h.Result) {
-	defer func() { triage(c, res, v) }()
+	v = judgeCall(c.String(), c.call(), v, batch, res)
+	triage(c, res, v)
+}
+
+// judgeCall is judge for any kind of call; desc describes it in messages. It returns the outcome used.
+func judgeCall(c string, call Call, v cached, batch bool, res *h.Result) cached {
 	if batch && (v.verdict != vOK || (v.res.Kind == ev.Fault && !noSolo)) {
 		first := v
-		v = solo(c.call())
+		v = solo(call)
 		if v.verdict == vOK && v.res.Kind != ev.Fault {
 			// not reproduced alone: load or pollution by earlier calls of the shared worker
 			res.Classes = append(res.Classes, "not-reproduced-alone")
@@ -130,18 +135,18 @@ func judge(c Case, v cached, batch bool, res *h.Result) {
 	case vOK:
 	case vTimeout:
 		res.Err = fmt.Sprintf("%s: no answer within %d heart beats of a fresh worker (hang)", c, soloBeats)
-		return
+		return v
 	case vDied:
 		res.Err = fmt.Sprintf("%s: the host process died: %s", c, firstLines(v.info, 3))
-		return
+		return v
 	case vMemory:
 		res.Err = fmt.Sprintf("%s: heap grew beyond %d MiB (%s)", c, heapLimit>>20, v.info)
-		return
+		return v
 	default:
 		inconclusive.Add(1)
 		res.Classes = append(res.Classes, "inconclusive-starved")
 		h.Note("inconclusive (worker not scheduled): %s %s", c, v.info)
-		return
+		return v
 	}
 	r := v.res
 	res.Classes = append(res.Classes, "outcome:"+r.Kind)
@@ -151,6 +156,7 @@ func judge(c Case, v cached, batch bool, res *h.Result) {
 	case ev.Condition:
 		res.Classes = append(res.Classes, "condition:"+r.Class)
 	}
+	return v
 }
 
 // triage aid (development only): with C09_TRIAGE=<file> every failing call is appended to the file as a
@@ -227,30 +233,39 @@ func (r *runner) close() {
 
 // exec runs the cases in a shared worker and puts every outcome into the cache.
 func (r *runner) exec(cases []Case) {
+	calls := make([]Call, len(cases))
+	for i, c := range cases {
+		calls[i] = c.call()
+	}
+	for i, v := range r.run(calls) {
+		putCache(cases[i], v)
+	}
+}
+
+// run executes the calls in a shared worker, restarting it after a call that stopped it, and returns one
+// outcome per call.
+func (r *runner) run(calls []Call) []cached {
 	const chunk = 256
+	out := make([]cached, len(calls))
 	retried := -1
-	for start := 0; start < len(cases); {
+	for start := 0; start < len(calls); {
 		end := start + chunk
-		if end > len(cases) {
-			end = len(cases)
+		if end > len(calls) {
+			end = len(calls)
 		}
 		if r.cl == nil || r.cl.calls > 4000 {
 			r.cl.stop()
 			cl, err := startClient()
 			if err != nil {
-				for _, c := range cases[start:] {
-					putCache(c, cached{verdict: vStarved, info: err.Error()})
+				for i := start; i < len(calls); i++ {
+					out[i] = cached{verdict: vStarved, info: err.Error()}
 				}
 				r.cl = nil
-				return
+				return out
 			}
 			r.cl = cl
 		}
-		calls := make([]Call, 0, end-start)
-		for _, c := range cases[start:end] {
-			calls = append(calls, c.call())
-		}
-		results, suspect, verdict, info := r.cl.run(calls, batchBeats)
+		results, suspect, verdict, info := r.cl.run(calls[start:end], batchBeats)
 		// a failure of the harness's own set-up forms means an earlier call damaged the interpreter of this
 		// worker (e.g. unexported lambda): go on in a fresh worker, starting with that call
 		for i, rs := range results {
@@ -261,7 +276,7 @@ func (r *runner) exec(cases []Case) {
 			}
 		}
 		for i, rs := range results {
-			putCache(cases[start+i], cached{res: rs, verdict: vOK})
+			out[start+i] = cached{res: rs, verdict: vOK}
 		}
 		if verdict == vOK {
 			start = end
@@ -274,14 +289,15 @@ func (r *runner) exec(cases []Case) {
 			pollutedRestarts.Add(1)
 			continue
 		}
-		if suspect < 0 || suspect >= len(calls) {
+		if suspect < 0 || suspect >= end-start {
 			suspect = len(results)
 		}
-		if suspect < len(calls) {
-			putCache(cases[start+suspect], cached{verdict: verdict, info: info})
+		if suspect < end-start {
+			out[start+suspect] = cached{verdict: verdict, info: info}
 		}
 		start = start + suspect + 1
 	}
+	return out
 }
 
 func maxViol() int {
@@ -416,6 +432,7 @@ func TestC09(t *testing.T) {
 		testFormat(t)
 	}
 	rapidRunner.close()
+	readRunner.close()
 	h.Note("solo confirmation runs: %d; inconclusive (starved) calls: %d; worker restarts after interpreter damage: %d", soloRuns.Load(), inconclusive.Load(), pollutedRestarts.Load())
 }
 
@@ -512,6 +529,6 @@ func testCalls(t *testing.T, fns []FuncEntry) {
 		h.SetExhaustive(call2.Name)
 	}
 	if part("cn") {
-		h.RunProp(t, calln, h.N(15000, 125000))
+		h.RunProp(t, calln, h.N(15000, 250000))
 	}
 }
